@@ -243,3 +243,73 @@ func (c *deadlineCtx) Err() error {
 	}
 	return nil
 }
+
+// Ticker replaces time.Ticker (periodic virtual timer; ticks are dropped when the channel is full, as in Go).
+type Ticker struct {
+	C       <-chan time.Time
+	c       chan time.Time
+	x       *Exec
+	d       time.Duration
+	ent     *timerEnt
+	stopped bool
+	rt      *time.Ticker
+}
+
+func (t *Ticker) arm() {
+	x := t.x
+	t.ent = x.addTimer(t.d, func() {
+		if t.stopped {
+			return
+		}
+		x.timerSend(t.c)
+		t.arm()
+	})
+}
+
+// NewTicker replaces time.NewTicker.
+func NewTicker(d time.Duration) *Ticker {
+	x := cur
+	if x == nil || x.finished {
+		rt := time.NewTicker(d)
+		return &Ticker{C: rt.C, rt: rt}
+	}
+	if d <= 0 {
+		panic("non-positive interval for NewTicker")
+	}
+	c := make(chan time.Time, 1)
+	x.chanOf(c).modelUsed = true
+	t := &Ticker{C: c, c: c, x: x, d: d}
+	t.arm()
+	return t
+}
+
+func (t *Ticker) Stop() {
+	if t.rt != nil {
+		t.rt.Stop()
+		return
+	}
+	t.stopped = true
+	if t.ent != nil {
+		t.ent.stopped = true
+	}
+}
+
+func (t *Ticker) Reset(d time.Duration) {
+	if t.rt != nil {
+		t.rt.Reset(d)
+		return
+	}
+	if t.ent != nil {
+		t.ent.stopped = true
+	}
+	t.d, t.stopped = d, false
+	t.arm()
+}
+
+// Tick replaces time.Tick.
+func Tick(d time.Duration) <-chan time.Time {
+	if d <= 0 {
+		return nil
+	}
+	return NewTicker(d).C
+}
